@@ -449,3 +449,39 @@ def run(ctx):
                    'the slice written is bounded by min(..)%s' % (' over the cap' if capl else '') if ok8 else
                    ('the slice written to the capped file is NOT bounded by a min over the cap (%s): more than the configured cap can be stored' % ('no min(..) in the provenance of its bounds' if not via else 'the min does not read the cap')), line=w_.line)
     ctx.floor('C17.8', 'writes into capped stores', n8, 3)
+
+    # ---------------------------------------------------------------- C17.9
+    ctx.rule('C17.9', 'the cap a task was announced with is the cap its logs are kept to: run_task publishes `artifact_max_bytes` in the spawn frame and hands the same value to the runner in the '
+             'TaskRunContext; in the runners (run_pipes_task, run_pty_task) the cap argument of every TaskLogWriter::new is that field and nothing else — no min / max / arithmetic / other '
+             'source between the context and the writer. A runner that clamps it stores less than the spawn frame promises and reports the log as truncated below its cap.')
+    from ..prov import fields_read as _fr9
+    n9 = 0
+    for fp9 in ('ripd::tasks::pipes::run_pipes_task', 'ripd::tasks::pty::run_pty_task'):
+        g9 = P.body(fp9)
+        ctx.touch(g9)
+        for s9 in g9.calls(r'TaskLogWriter::new$'):
+            if len(s9.args) < 4:
+                raise CheckError('C17.9: TaskLogWriter::new has lost its cap parameter')
+            n9 += 1
+            src9 = sources(g9, s9.args[3])
+            fl9 = _fr9(g9, s9.args[3], 'ripd::tasks::TaskRunContext')
+            # ... and no call (min / max / clamp) or arithmetic on the way: follow copies only
+            def _plain9(op, depth=0):
+                o9 = g9.origin(op)
+                if o9[0] != 'local':
+                    return False
+                named9 = [(pp.get('o'), pp.get('n')) for pp in o9[2] if isinstance(pp, dict) and 'n' in pp]
+                if named9[-1:] == [('ripd::tasks::TaskRunContext', 'artifact_max_bytes')]:
+                    return True
+                if o9[2]:
+                    return False
+                ds9 = g9.defs(o9[1])
+                if len(ds9) != 1 or ds9[0][2] != 'rv' or ds9[0][3]['k'] not in ('use', 'cast') or depth > 6:
+                    return False
+                return _plain9(ds9[0][3]['a'][0], depth + 1)
+            ok9 = bool(src9) and all(x[0] == 'param' for x in src9) and fl9 == {'artifact_max_bytes'} and _plain9(s9.args[3])
+            ctx.ob('C17.9', g9, 'log-cap-is-the-announced-cap', ok9,
+                   'the cap of this log writer %s' % ('is TaskRunContext.artifact_max_bytes, unmodified' if ok9 else
+                   'is NOT the announced cap as it came: a call or an operation (%s) stands between the context field and the writer' % (g9.origin(s9.args[3])[1].name if g9.origin(s9.args[3])[0] == 'call' else g9.origin(s9.args[3])[0])),
+                   line=s9.line)
+    ctx.floor('C17.9', 'log writers created by the task runners', n9, 3)
